@@ -1,5 +1,54 @@
-import Skglm.Real
-import Skglm.Model.Penalties
-namespace Skglm
-theorem placeholder_C07 : True := trivial
-end Skglm
+import Skglm.Spec.Penalties
+import Skglm.Proofs.Prox
+/-
+  C07 — proximal operators return a global minimiser of the prox objective.
+
+  Statements only; the lemmas are in `Skglm/Proofs/Prox.lean`.
+  `Spec.ProxLe p wt x s u v` : `u` is at least as good as `v` for `½(·-x)² + s·pen(·)`, where `pen`
+  is the documented penalty with the configured positivity / box constraint as an indicator.
+-/
+namespace Skglm.C07
+open Skglm Skglm.Spec
+
+/-- L1 (both positivity settings): soft-thresholding is the prox, for every `x`, every step, every `v`. -/
+theorem prox_l1 (a : ℝ) (pos : Bool) (wt x s : ℝ) (h : Admissible (.l1 a pos) wt s) (v : ℝ) :
+    ProxLe (.l1 a pos) wt x s ((SepPen.l1 a pos).prox1 wt x s) v := Proofs.prox_l1 a pos wt x s h v
+
+/-- weighted L1, weights included (zero weight = identity, resp. positive part) -/
+theorem prox_wl1 (a : ℝ) (pos : Bool) (wt x s : ℝ) (h : Admissible (.wl1 a pos) wt s) (v : ℝ) :
+    ProxLe (.wl1 a pos) wt x s ((SepPen.wl1 a pos).prox1 wt x s) v := Proofs.prox_wl1 a pos wt x s h v
+
+/-- elastic net: scaled soft-thresholding -/
+theorem prox_l1l2 (a r : ℝ) (pos : Bool) (wt x s : ℝ) (h : Admissible (.l1l2 a r pos) wt s) (v : ℝ) :
+    ProxLe (.l1l2 a r pos) wt x s ((SepPen.l1l2 a r pos).prox1 wt x s) v :=
+  Proofs.prox_l1l2 a r pos wt x s h v
+
+/-- MCP inside its well-posed step range `s < γ` -/
+theorem prox_mcp (a g : ℝ) (pos : Bool) (wt x s : ℝ) (h : Admissible (.mcp a g pos) wt s) (v : ℝ) :
+    ProxLe (.mcp a g pos) wt x s ((SepPen.mcp a g pos).prox1 wt x s) v := Proofs.prox_mcp a g pos wt x s h v
+
+/-- weighted MCP inside `wt·s < γ` -/
+theorem prox_wmcp (a g : ℝ) (pos : Bool) (wt x s : ℝ) (h : Admissible (.wmcp a g pos) wt s) (v : ℝ) :
+    ProxLe (.wmcp a g pos) wt x s ((SepPen.wmcp a g pos).prox1 wt x s) v :=
+  Proofs.prox_wmcp a g pos wt x s h v
+
+/-- box indicator: projection onto `[0, a]` -/
+theorem prox_box (a : ℝ) (wt x s : ℝ) (h : Admissible (.box a) wt s) (v : ℝ) :
+    ProxLe (.box a) wt x s ((SepPen.box a).prox1 wt x s) v := Proofs.prox_box a wt x s h v
+
+/-- positivity indicator: positive part -/
+theorem prox_pos (wt x s : ℝ) (h : Admissible (.pos) wt s) (v : ℝ) :
+    ProxLe (.pos) wt x s ((SepPen.pos : SepPen ℝ).prox1 wt x s) v := Proofs.prox_pos wt x s h v
+
+/-- the admissible range of MCP is sharp: at `s ≥ γ` the closed form is *not* a minimiser -/
+theorem prox_mcp_range_sharp :
+    ∃ a g x s v : ℝ, 0 < s ∧ 0 < g ∧ g ≤ s ∧
+      ¬ ProxLe (.mcp a g false) 1 x s ((SepPen.mcp a g false).prox1 1 x s) v := Proofs.prox_mcp_range_sharp
+
+/-- non-vacuity: a concrete admissible MCP configuration with a non-trivial prox value -/
+example : Admissible (.mcp (1:ℝ) 3 false) 1 1 ∧ (SepPen.mcp (1:ℝ) 3 false).prox1 1 2 1 = 3 / 2 := by
+  constructor
+  · simp [Admissible]
+  · simp [SepPen.prox1, prox_MCP, sabs_eq, sgn]; norm_num
+
+end Skglm.C07
